@@ -398,7 +398,7 @@ pub fn generate(sink: &mut Sink, seed: u64, thorough: bool) {
     }
     let n = if thorough { 20000 } else { 1500 };
     // amplification family: many constant records next to one dense bit stream (see `amplification_file`)
-    let amps: Vec<(usize, usize)> = if thorough { vec![(120, 20000), (300, 8000), (600, 30000), (40, 60000), (1000, 4000)] } else { vec![(120, 20000), (300, 8000)] };
+    let amps: Vec<(usize, usize)> = if thorough { vec![(1000, 4000), (120, 20000), (300, 8000), (2000, 6000)] } else { vec![(1000, 4000)] };
     for i in 0..n + amps.len() {
         let (mut file, mut kind) = if i >= n {
             let (k, nb) = amps[i - n];
@@ -415,7 +415,9 @@ pub fn generate(sink: &mut Sink, seed: u64, thorough: bool) {
                 kind = k2;
             }
         }
-        let ops = eng_reader::ops_for(&mut rng, &file, false);
+        // (amplification files: one raw and one simple read of a few points — the whole packet is decoded by the
+        // first step, which is what is measured; more operations only cost model time)
+        let ops = if i >= n { vec!["META".to_string(), "RAW".into(), "0".into(), "3".into(), "SIMPLE".into(), "0".into(), "59".into(), "2".into()] } else { eng_reader::ops_for(&mut rng, &file, false) };
         let line = eng_reader::case_line(&file, &ops);
         let o: Vec<&str> = ops.iter().map(|s| s.as_str()).collect();
         crate::watchdog_begin(&line);
